@@ -303,7 +303,7 @@ compilation panics, and a stored ADF denotes the code -/
 def parseSpec (code : String) (obs : Option String) (adf : Option SAdf) : String :=
   match parseOutcome code, obs, adf with
   | .error e, some o, _ => if o == "Error:" ++ errName e then "ok" else s!"violated expected Error:{errName e}"
-  | .ok _, some "Some", some a => storedAdfOK code a
+  | .ok _, some "Some", some a => storedAdfOK' code a
   | .ok _, _, _ => "violated valid-code-not-stored"
   | _, none, _ => "bad-request"
 
